@@ -33,7 +33,9 @@ STUB = ['replica histories (construction routes and read-only operations)']
 
 ROUTES = ['canonical', 'permuted', 'permuted', 'defaults-explicit', 'defaults-implicit', 'native-args',
           'decoded:ber', 'decoded:ber-indef', 'decoded:ber-chunk:2', 'decoded:ber-indef-chunk:3', 'decoded:der', 'decoded:cer',
-          'decoded:variant', 'decoded:variant', 'decoded:realbase', 'clone']
+          'decoded:variant', 'decoded:variant', 'decoded:realbase', 'clone', 'inplace', 'inplace']
+# read-only uses that may be interleaved *during* a construction (none of them is documented to instantiate)
+MID_READS = ['der', 'cer', 'ber', 'prettyPrint', 'str', 'iter', 'eq', 'len', 'in', 'isValue']
 READS = ['der', 'cer', 'ber', 'prettyPrint', 'str', 'iter', 'eq', 'len', 'in', 'isValue', 'values', 'getitem', 'getitem', 'items', 'deep_read']
 
 
@@ -65,19 +67,38 @@ CATALOGUE = [
                        {'n': 'x', 'd': _P('BOOLEAN'), 'opt': 'R'},
                        {'n': 'w', 'd': _P('UTF8', tags=[['I', 'P', 0]]), 'opt': 'D', 'dv': 'w'}]),
      [{'z': 1, 'x': True}, {'z': 1, 'y': '00', 'x': False, 'w': 'w'}, {'z': -1, 'x': True, 'w': 'v'}]),
+    # lazily instantiated nested containers (type/univ.py getComponentByPosition(instantiate=True))
+    (_P('SEQ', fields=[{'n': 'id', 'd': _P('INTEGER'), 'opt': 'R'},
+                       {'n': 'items', 'd': _P('SEQOF', of=_P('SEQ', fields=[{'n': 'a', 'd': _P('INTEGER'), 'opt': 'R'},
+                                                                              {'n': 'b', 'd': _P('BOOLEAN'), 'opt': 'O'}])), 'opt': 'O'}]),
+     [{'id': 1}, {'id': 1, 'items': [{'a': 7}]}, {'id': 1, 'items': [{'a': 7, 'b': True}, {'a': 0}]}, {'id': 1, 'items': []}]),
+    (_P('SET', fields=[{'n': 'id', 'd': _P('INTEGER'), 'opt': 'R'},
+                       {'n': 'grid', 'd': _P('SETOF', of=_P('SEQOF', of=_P('INTEGER')), tags=[['E', 'C', 1]]), 'opt': 'O'},
+                       {'n': 'rec', 'd': _P('SEQ', fields=[{'n': 'in', 'd': _P('SET', fields=[{'n': 'x', 'd': _P('NULL'), 'opt': 'R'}]), 'opt': 'R'}],
+                                            tags=[['I', 'C', 2]]), 'opt': 'O'}]),
+     [{'id': 2, 'grid': [[1, 2], []]}, {'id': 2, 'rec': {'in': {'x': ''}}}, {'id': 2, 'grid': [[3]], 'rec': {'in': {'x': ''}}}]),
 ]
+
+
+def _gen_mid_reads(r):
+    if r.random() < 0.4:
+        op = r.choice(MID_READS)         # the same read-only use after every construction step
+        return [[t, op, 0] for t in range(40)]
+    return sorted([r.randrange(12), r.choice(MID_READS), r.randrange(4)] for _ in range(r.choice([0, 1, 2, 4])))
 
 
 def _gen_catalogue(r):
     desc, values = r.choice(CATALOGUE)
     reps = []
     routes = ['canonical', 'permuted', 'permuted', 'defaults-explicit', 'defaults-implicit', 'native-args',
-              'decoded:ber', 'decoded:ber-indef', 'decoded:der', 'clone']
+              'decoded:ber', 'decoded:ber-indef', 'decoded:der', 'clone', 'inplace', 'inplace']
     for i in range(r.randrange(2, 6)):
         rep = {'route': r.choice(routes), 'perm': r.randrange(1 << 30),
                'reads': [[r.choice(READS), r.randrange(4)] for _ in range(r.choice([0, 0, 1, 3]))]}
         if rep['route'] == 'clone':
-            rep['of'] = r.choice(['canonical', 'permuted'])
+            rep['of'] = r.choice(['canonical', 'permuted', 'inplace'])
+        if rep['route'] == 'inplace':
+            rep['mid_reads'] = _gen_mid_reads(r)
         reps.append(rep)
     if all(x['route'] == reps[0]['route'] for x in reps):
         reps[0]['route'] = 'canonical'
@@ -89,7 +110,7 @@ def _gen_catalogue(r):
 def gen_plan(r, index, tier):
     if r.random() < 0.15:
         return _gen_catalogue(r)
-    w, cfg = common.gen_stream_workload(r, max_values=1, small=r.random() < 0.5, force_codec='ber', allow_f2=True,
+    w, cfg = common.gen_stream_workload(r, max_values=1, small=r.random() < 0.5, force_codec='ber', allow_f2=True, variants=False,
                                         constructed_default=r.random() < 0.5)
     desc = w['desc']
     if U.has_open(desc):
@@ -106,6 +127,10 @@ def gen_plan(r, index, tier):
                'reads': [[r.choice(READS), r.randrange(4)] for _ in range(r.choice([0, 0, 1, 3, 6]))]}
         if route == 'clone':
             rep['of'] = r.choice(['canonical', 'permuted', 'decoded:ber'])
+        if route == 'inplace':
+            # built the documented lazy way (outer['items'][0]['a'] = 7) with read-only uses of the
+            # still incomplete value in between
+            rep['mid_reads'] = _gen_mid_reads(r)
         if route == 'decoded:variant':
             # another BER form of the same value: framing edits X.690 declares equivalent
             rep['base'] = r.choice(['ber', 'ber', 'ber-indef'] + ([] if chars else ['ber-chunk:2']))
@@ -230,9 +255,55 @@ def _set_real_base(obj, base, depth=0):
                 _set_real_base(c, base, depth + 1)
 
 
+_CONSTRUCTED_INPLACE = ('SEQ', 'SET', 'SEQOF', 'SETOF')
+
+
+def build_inplace(root, obj, schema, desc, v, mid):
+    """Fill obj (the root, or a component obtained by an instantiating read) in place."""
+    k = desc['k']
+    if k in ('SEQ', 'SET'):
+        nts = schema.componentType
+        present = [(f, v[f['n']]) for f in desc['fields'] if f['n'] in v]
+        for f, x in present:
+            sub = nts[f['n']].asn1Object
+            if f['d']['k'] in _CONSTRUCTED_INPLACE and not f.get('open'):
+                child = obj[f['n']]                  # documented: instantiates the component
+                mid()
+                build_inplace(root, child, sub, f['d'], x, mid)
+            else:
+                obj[f['n']] = U.build_value(sub, f['d'], x)
+            mid()
+        if not present and not desc['fields']:
+            obj.clear()
+    else:
+        obj.clear()
+        for i, x in enumerate(v):
+            if desc['of']['k'] in _CONSTRUCTED_INPLACE:
+                child = obj[i]                       # documented: reading position len() appends a new element
+                mid()
+                build_inplace(root, child, schema.componentType, desc['of'], x, mid)
+            else:
+                obj.append(U.build_value(schema.componentType, desc['of'], x))
+            mid()
+
+
 def make_replica(schema, desc, v, rep):
     route = rep['route']
     rnd = random.Random(rep['perm'])
+    if route == 'inplace':
+        if desc['k'] not in _CONSTRUCTED_INPLACE:
+            return build_route(schema, desc, v, 'canonical', rnd)
+        obj = schema.clone()
+        pending = [list(x) for x in rep.get('mid_reads') or []]
+        tick = [0]
+
+        def mid():
+            while pending and pending[0][0] <= tick[0]:
+                _at, op, arg = pending.pop(0)
+                do_read(obj, op, arg)
+            tick[0] += 1
+        build_inplace(obj, obj, schema, desc, v, mid)
+        return obj
     if route.startswith('decoded:'):
         codec = route.split(':', 1)[1]
         if codec in ('variant', 'realbase'):
@@ -451,6 +522,15 @@ def shrink_candidates(plan):
             c = copy.deepcopy(plan)
             c['replicas'][i]['route'] = 'canonical'
             yield c
+        if rep.get('mid_reads'):
+            c = copy.deepcopy(plan)
+            c['replicas'][i]['mid_reads'] = []
+            yield c
+            if len(rep['mid_reads']) > 1:
+                for j in range(len(rep['mid_reads'])):
+                    c = copy.deepcopy(plan)
+                    del c['replicas'][i]['mid_reads'][j]
+                    yield c
         if len(rep.get('variant') or []) > 1:
             for j in range(len(rep['variant'])):
                 c = copy.deepcopy(plan)
